@@ -2,8 +2,10 @@ use checks::miner::*;
 use mcvm::{Store, Vm};
 fn main() {
     mcvm::install_panic_hook();
-    let vm = Vm::genesis(Store::new(), small_policy());
-    let c = setup(&vm, true);
+    let big = std::env::var("BIG").is_ok();
+    let vm = Vm::genesis(Store::new(), if big { big_policy() } else { small_policy() });
+    let c = if big { setup_with(&vm, true, Some(fvm_shared::econ::TokenAmount::from_whole(6))) } else { setup(&vm, true) };
+    println!("balance {} circ {}", vm.balance(c.m), vm.circ_supply.borrow());
     let v = view(&vm, c.m).unwrap();
     println!("epoch {} pps {} cur_dl {} dlinfo idx {} open {} close {} locked {} cron_active {}", vm.epoch(), v.st.proving_period_start, v.st.current_deadline, v.dl_info.index, v.dl_info.open, v.dl_info.close, v.st.locked_funds, v.st.deadline_cron_active);
     // choose a mutable deadline: current+2
